@@ -288,3 +288,20 @@ Theorem parse_ip6_arpa_is_translated_loop :
   end.
 Proof. exact parse_ip6_arpa_by_gen_loop. Qed.
 Print Assumptions parse_ip6_arpa_is_translated_loop.
+
+(* compiled.zoneExcluded and compiled.hasWellKnown, translated as whole
+   functions (Records T_compiled / T_compiledPrefix hold the fields inside the
+   translator's subset): on the compiled zone list / the wellKnown flags they
+   are the model's zone_excluded and the [existsb cp_wk] gate of compile *)
+Theorem zone_excluded_is_translated :
+  forall (mc : compiled) (gc : T_compiled) q,
+  T_compiled_excludeZones gc = c_zones mc -> go_compiled_zoneExcluded gc q = zone_excluded mc q.
+Proof. exact gen_zoneExcluded_model. Qed.
+Print Assumptions zone_excluded_is_translated.
+
+Theorem has_well_known_is_translated :
+  forall (ps : list cprefix) (gc : T_compiled),
+  map T_compiledPrefix_wellKnown (T_compiled_prefixes gc) = map cp_wk ps ->
+  go_compiled_hasWellKnown gc = existsb cp_wk ps.
+Proof. exact gen_hasWellKnown_model. Qed.
+Print Assumptions has_well_known_is_translated.
